@@ -1,6 +1,9 @@
 package main
 
 import (
+	"os"
+	"math"
+	"math/big"
 	"strconv"
 	"strings"
 
@@ -17,8 +20,12 @@ func runCase(c Case) string {
 		}
 		first := fmtTokens(parser.Scan(src))
 		// history: Scan is a function of its argument
-		if len(src) <= 512 {
-			for _, other := range []string{src[:len(src)/2], src + "'", "\ufeff" + src, src + src} {
+		if len(src) <= 512 || (os.Getenv("VERIF_MAGIC") != "" && len(src) <= 70000 && len(src) > 1) {
+			others := []string{src[:len(src)/2], src + "'", "\ufeff" + src, src + src}
+			if len(src) > 1 {
+				others = append(others, src[:len(src)-1], src[:len(src)-len(src)/3])
+			}
+			for _, other := range others {
 				parser.Scan(other)
 				if again := fmtTokens(parser.Scan(src)); again != first {
 					return again
@@ -61,7 +68,22 @@ func runCase(c Case) string {
 		if lit.IsInteger() {
 			u = strconv.FormatUint(lit.Uint64(), 10)
 		}
-		return hexs(lit.Value) + " " + b(lit.IsFloat()) + " " + b(lit.IsInteger()) + " " + u
+		// Float64 against the nearest float64 of the literal's VALUE (math/big, independent of strconv's range
+		// handling: the spelling, not the accessor, says what the number is; out of range = +Inf as ParseFloat rounds)
+		f64 := "F64-"
+		if r, ok := new(big.Rat).SetString(lit.Value); ok {
+			want, _ := r.Float64()
+			got := lit.Float64()
+			switch {
+			case math.IsInf(want, 0):
+				f64 = "F64-" // beyond the float64 range: the documented behaviour there is not fixed by the property
+			case got == want:
+				f64 = "F64ok"
+			default:
+				f64 = "F64BAD"
+			}
+		}
+		return hexs(lit.Value) + " " + b(lit.IsFloat()) + " " + b(lit.IsInteger()) + " " + u + " " + f64
 	}
 	if f, ok := moreOps[c.Op]; ok {
 		return f(c)
